@@ -99,15 +99,23 @@ def run(R, tier):
     # expr_as_matrix (exploration): A . coefficients(x) = coefficients(y)
     forms = [('R >> x', lambda Rm, x: Rm >> x), ('R * x', lambda Rm, x: Rm * x), ('x * R', lambda Rm, x: x * Rm), ('R | x', lambda Rm, x: Rm | x),
              ('R ^ x', lambda Rm, x: Rm ^ x), ('x.hodge()', lambda Rm, x: x.hodge()), ('R.cp(x)', lambda Rm, x: Rm.cp(x)), ('~x + R*x', lambda Rm, x: ~x + Rm * x),
-             ('0.5 * (R * x)', lambda Rm, x: 0.5 * (Rm * x)), ('(x * R) / 4', lambda Rm, x: (x * Rm) / 4)]   # non-integer entries from integer inputs
-    for it in range(16 if tier == 'quick' else 160):
+             ('0.5 * (R * x)', lambda Rm, x: 0.5 * (Rm * x)), ('(x * R) / 4', lambda Rm, x: (x * Rm) / 4),
+             ('(R | x) * R', lambda Rm, x: (Rm | x) * Rm), ('R * (x | R)', lambda Rm, x: Rm * (x | Rm))]   # rows with a common symbolic factor   # non-integer entries from integer inputs
+    for it in range(26 if tier == 'quick' else 200):
         d = rng.choice((2, 3))
         alg = algs.make_impl({'sig': [rng.choice((1, 1, -1, 0)) for _ in range(d)]})
         name, f = rng.choice(forms)
         kind = rng.choice(['symbolic', 'numeric', 'array'])
         gx = rng.randint(0, d)
+        if it < len(forms):               # every form once with a symbolic other input and a vector x (deterministic part)
+            name, f = forms[it]
+            kind = 'symbolic'
+            alg = algs.make_impl({'sig': [1] * d})
+            gx = 1
         x = alg.purevector(name='x', grade=gx)
         gR = tuple(sorted(rng.sample(range(d + 1), rng.randint(1, 2))))
+        if it < len(forms):
+            gR = (1,)
         nR = len(alg.indices_for_grades[gR])
         if kind == 'symbolic':
             Rm = alg.multivector(name='R', grades=gR)
@@ -143,7 +151,11 @@ def run(R, tier):
                     Am = sympy.Matrix(A).subs(vals) if kind == 'symbolic' else sympy.Matrix(np.array(A).tolist())
                     lhs = list(Am * sympy.Matrix(xv))
                 rhs = [sympy.sympify(v).subs(vals) for v in y.values()]
-                if [sympy.nsimplify(a - b) for a, b in zip(lhs, rhs)] != [0] * len(rhs) or len(lhs) != len(rhs):
+                def close(a, b):
+                    if kind == 'symbolic':
+                        return sympy.nsimplify(a - b) == 0
+                    return abs(complex(a) - complex(b)) <= 1e-9 * max(1.0, abs(complex(b)))      # a numeric A holds floats
+                if len(lhs) != len(rhs) or not all(close(a, b) for a, b in zip(lhs, rhs)):
                     viol('expr_as_matrix', f'A.x != y for {name} with a {kind} R: {lhs} vs {rhs}', expression=name, kind=kind)
         except Exception as e:  # noqa
             viol('expr_as_matrix-check', f'could not evaluate A.x for {name} ({kind}): {type(e).__name__}: {e}'[:300], expression=name, kind=kind)
